@@ -127,7 +127,10 @@ def exp_list(seq, case, level):
             e.acted = ()
             return e
         if t[0] == 'lenient':
+            # undefined target: placing at an end, raising, or reporting it as not found (one warning,
+            # nothing inserted) are all acceptable
             e.defined = False
+            e.optional[nf] += 1
             return e
         e.resolves = True
         e.alts = [tuple(seqref.insert_before(seq, new, t[1] if t[0] == 'at' else END))]
@@ -196,9 +199,9 @@ def exp_list(seq, case, level):
         if unres:
             e.owed[nf] = unres
         if repeats:
-            # the second naming of an ID refers to an element that is no longer there once the first
-            # naming has been applied: it "cannot be found" and is owed a report like any other
-            e.owed[nf] += repeats
+            # an existing ID named twice: MOS does not say whether the second naming is "not found"
+            # (one more warning) or the same element named again (none) - both are accepted
+            e.optional[nf] = repeats
             e.defined = False
         e.note = f'n={len(srcs)},unres={unres},rep={repeats}'
         if not unres and not repeats:
@@ -232,7 +235,8 @@ def exp_list(seq, case, level):
         e = Exp(kind, 'move')
         if kind == 'StoryMove':
             srcs = [case['src']]
-            if case['src'] == ABSENT:          # no storyID at all: "no stories given"
+            if case['src'] == ABSENT:          # no storyID at all: not schema-shaped (MOS requires the first storyID)
+                e.schema = False
                 e.owed[nf] = 1
                 e.note = 'no-ids'
                 e.target = ('unres',)
@@ -274,6 +278,7 @@ def exp_list(seq, case, level):
             return e
         if t[0] == 'lenient':
             e.defined = False
+            e.optional[nf] += 1
             return e
         if unres:
             return e
@@ -293,6 +298,6 @@ def exp_nostory(case):
     e.optional[ITEM_NF] = n
     e.target = ('unres',)
     e.note = 'story-unres'
-    if case['story'] == ABSENT and not case['kind'].startswith('EA'):
-        e.schema = False
+    if case['story'] == ABSENT:
+        e.schema = False       # every item message must name its story (flat messages and element_target alike)
     return e
